@@ -71,7 +71,7 @@ impl Monitor for C01 {
 		"C01"
 	}
 	fn rule(&self) -> String {
-		"cases = repository fixtures + deterministic sweep (every (major,minor) 0.1..3.16 with a base shape; every distinct layout x shape matrix of port sets/ICs/presence patterns/rollbacks/items/gecko/end/metadata) + VERIF_SEED-driven random well-formed specs; every payload field carries random bits (1/8 special patterns: NaN payloads, inf, sign bit, all ones). A case is non-trivial when the reference model re-parses the generated file to the generator's ground truth; distinct = distinct coverage classes (layout, regime x port mask, regime x absence x rollback x items x frame-count class, gecko x ends x metadata). Every 4th case is preceded by a (failing) read of a truncated copy on the same thread. Oracle: write(read(x)) == x byte for byte, into a plain buffer and into a sink that accepts only 1/3/7/100/4096 bytes per call; a sink that fails after k bytes must make the write return Err.".into()
+		"cases = repository fixtures + deterministic sweep (every (major,minor) 0.1..3.16 with a base shape; every distinct layout x shape matrix of port sets/ICs/presence patterns/rollbacks/items/gecko/end/metadata) + VERIF_SEED-driven random well-formed specs; every payload field carries random bits (1/8 special patterns: NaN payloads, inf, sign bit, all ones). A case is non-trivial when the reference model re-parses the generated file to the generator's ground truth; distinct = distinct coverage classes (layout, regime x port mask, regime x absence x rollback x items x frame-count class, gecko x ends x metadata). A family of concurrent cases runs 6 threads x 12 round trips (both formats, hash on/off) at once in one process and requires every thread to get the single-threaded result. Every 4th case is preceded by a (failing) read of a truncated copy on the same thread. Oracle: write(read(x)) == x byte for byte, into a plain buffer and into a sink that accepts only 1/3/7/100/4096 bytes per call; a sink that fails after k bytes must make the write return Err.".into()
 	}
 	fn assumptions(&self) -> Vec<String> {
 		vec!["well-formedness is defined by the harness's hand-transcribed spec tables (spec.rs), pinned against the payload tables of the repository's real fixtures".into(), "frame field contents are sampled, not enumerated".into()]
@@ -80,13 +80,17 @@ impl Monitor for C01 {
 		vec![Lane { kind: LaneKind::Miri, name: "roundtrip", shards: (0..25).collect(), nshards: 25 }]
 	}
 	fn n_cases(&self, ctx: &Ctx) -> usize {
-		self.fixtures.len() + self.space(ctx.tier).len()
+		self.fixtures.len() + self.space(ctx.tier).len() + ctx.tier.pick(24, 400)
 	}
 	fn min_classes(&self, tier: Tier) -> usize {
 		tier.pick(60, 100)
 	}
 	fn run(&self, ctx: &Ctx, idx: usize) -> CaseOut {
 		let mut out = CaseOut::default();
+		let n_main = self.fixtures.len() + self.space(ctx.tier).len();
+		if idx >= n_main {
+			return self.concurrent_case(ctx, idx - n_main);
+		}
 		let Some((desc, bytes, truth)) = case_input(self.space(ctx.tier), &self.fixtures, ctx.seed, idx, &mut out) else { return out };
 		out.evals = 1;
 		out.count("bytes_in", bytes.len() as u64);
@@ -153,6 +157,88 @@ impl Monitor for C01 {
 		if idx % 50 == 0 {
 			out.sample = Some(json!({"case": idx, "input": desc, "bytes": bytes.len(), "rows": truth.frames.len(), "observed": if written == bytes { "write(read(x)) == x" } else { "DIFFERS" }}));
 		}
+		out
+	}
+}
+
+impl C01 {
+	/// Thread schedules: the library has no shared state today, so several threads of one
+	/// process reading and writing different replays (and both formats) at the same time must
+	/// each get exactly what a single-threaded run gets. 6 threads x 12 round trips per case;
+	/// the interleaving is whatever the OS scheduler produces (the threads start together on a
+	/// barrier and yield between steps).
+	fn concurrent_case(&self, ctx: &Ctx, k: usize) -> CaseOut {
+		use std::sync::{Arc, Barrier};
+		let mut out = CaseOut::default();
+		let space = self.space(ctx.tier);
+		let nthreads = 6;
+		let per = 12;
+		let mut inputs: Vec<Vec<(String, Vec<u8>, bool)>> = vec![];
+		for t in 0..nthreads {
+			let mut v = vec![];
+			for j in 0..per {
+				let mut sink = CaseOut::default();
+				let i = self.fixtures.len() + (k * 7919 + t * 104729 + j * 1299709) % space.len();
+				if let Some((d, b, m)) = case_input(space, &self.fixtures, ctx.seed, i, &mut sink) {
+					let nports = crate::view::occupied_chars(&m.start).iter().filter(|c| !c.1).count();
+					let slpp_ok = super::c14::empty_struct_class(m.v(), nports) == "other";
+					if b.len() < 200_000 {
+						v.push((d, b, slpp_ok));
+					}
+				}
+			}
+			inputs.push(v);
+		}
+		let barrier = Arc::new(Barrier::new(nthreads));
+		let mut handles = vec![];
+		for (t, v) in inputs.into_iter().enumerate() {
+			let bar = barrier.clone();
+			handles.push(std::thread::spawn(move || {
+				crate::driver::install_panic_hook();
+				let mut problems: Vec<String> = vec![];
+				let mut done = 0u64;
+				bar.wait();
+				for (j, (d, b, slpp_ok)) in v.iter().enumerate() {
+					let r = common::slp_read(b, false, (t + j) % 2 == 0).and_then(|g| {
+						std::thread::yield_now();
+						let w = common::slp_write(&g)?;
+						Ok((g, w))
+					});
+					match r {
+						Ok((g, w)) => {
+							if &w != b {
+								problems.push(format!("thread {}: {}: round trip differs under concurrency: {}", t, d, common::first_diff(b, &w)));
+							}
+							if *slpp_ok && (t + j) % 3 == 0 {
+								std::thread::yield_now();
+								match common::slpp_write(g, common::Comp::ALL[(t + j) % 3]).and_then(|a| common::slpp_read(&a, false)).and_then(|g2| common::slp_write(&g2)) {
+									Ok(w2) if &w2 == b => {}
+									Ok(_) => problems.push(format!("thread {}: {}: .slpp trip differs under concurrency", t, d)),
+									Err(f) => problems.push(format!("thread {}: {}: .slpp trip under concurrency: {}", t, d, f.text())),
+								}
+							}
+						}
+						Err(f) => problems.push(format!("thread {}: {}: {}", t, d, f.text())),
+					}
+					done += 1;
+				}
+				(done, problems)
+			}));
+		}
+		for h in handles {
+			match h.join() {
+				Ok((done, problems)) => {
+					out.evals += done;
+					for p in problems.into_iter().take(2) {
+						out.violate("concurrent-use-differs", p, None);
+					}
+				}
+				Err(_) => out.violate("concurrent-use-panic", "a thread of the concurrent case panicked outside the guards".to_string(), None),
+			}
+		}
+		out.class(format!("concurrent|{}-threads", nthreads));
+		out.class("concurrent|mixed-formats".to_string());
+		out.sample = Some(json!({"case": "concurrent", "threads": nthreads, "round_trips": out.evals}));
 		out
 	}
 }
